@@ -37,7 +37,9 @@ class _BaseLSML(MahalanobisMixin):
     if weights is None:
       self.w_ = np.ones(vab.shape[0])
     else:
-      self.w_ = weights
+      # a float copy: lists and integer arrays are accepted, and the
+      # normalization below must not modify the array of the caller
+      self.w_ = np.array(weights, dtype=float)
     self.w_ /= self.w_.sum()  # weights must sum to 1
     M, prior_inv = _initialize_metric_mahalanobis(
         quadruplets, self.prior,
